@@ -7,11 +7,15 @@ use std::collections::BTreeMap;
 #[derive(Clone, PartialEq, Debug)]
 pub struct Tk(pub u32);
 pub struct Filler(pub u64);
+pub struct M1(pub u8);
+pub struct M2(pub u16);
+pub struct M3(pub u64);
 
 pub fn run(args: &[u64], out: &mut Out) {
     let mut world = World::new();
     let mut tracker = ChangeTracker::<Tk>::new();
     let mut hs: Vec<Entity> = Vec::new();
+    let mut nbatch = 0usize;
     // oracle state: the T of every live entity at the time of the previous track call
     let mut snapshot: BTreeMap<u64, u32> = BTreeMap::new();
     let mut p = 0usize;
@@ -25,7 +29,29 @@ pub fn run(args: &[u64], out: &mut Out) {
         match next(&mut p) {
             1 => {
                 let v = next(&mut p) as u32;
-                let h = world.spawn((Tk(v), Filler(7)));
+                // odd values arrive through a one-row column batch with a component set new to the world (the
+                // archetype is then created by insert_batch, not by spawn): same entity as far as T is concerned
+                let h = if v % 2 == 1 {
+                    let mut ty = ColumnBatchType::new();
+                    ty.add::<Tk>();
+                    match nbatch % 3 {
+                        0 => ty.add::<M1>(),
+                        1 => ty.add::<M2>(),
+                        _ => ty.add::<M3>(),
+                    };
+                    let mut b = ty.into_batch(1);
+                    let _ = b.writer::<Tk>().unwrap().push(Tk(v));
+                    match nbatch % 3 {
+                        0 => drop(b.writer::<M1>().unwrap().push(M1(1))),
+                        1 => drop(b.writer::<M2>().unwrap().push(M2(2))),
+                        _ => drop(b.writer::<M3>().unwrap().push(M3(3))),
+                    }
+                    nbatch += 1;
+                    let mut it = world.spawn_column_batch(b.build().expect("complete batch"));
+                    it.next().unwrap()
+                } else {
+                    world.spawn((Tk(v), Filler(7)))
+                };
                 hs.push(h);
                 out.push(h.to_bits().into());
             }
